@@ -54,6 +54,7 @@ inductive Obs
   | mdnsRequest | mdnsAnnounce | mdnsSetAuto (b : Bool) | mdnsShutdown
   | visible (n : Nat)
   | detail (st : Nat) (err : Bool)                  -- return value of PairingDetailForSki
+  | service (k : Key) (trusted : Bool)              -- what ServiceForSKI returned: the record of this SKI, its trust flag
   deriving DecidableEq, Repr
 
 structure H where
@@ -126,6 +127,7 @@ def taskFire (h : H) (k : Key) (c : Nat) : H × List Obs :=
 inductive Ev
   | start
   | register (s : Str) | unregister (s : Str) | cancel (s : Str) | disconnect (s : Str) | pairingDetail (s : Str)
+  | lookup (s : Str)                  -- ServiceForSKI
   | setAuto (b : Bool) | shutdown
   | report (ks : List Key)           -- ReportMdnsEntries with these (canonical) SKIs visible
   | settle                            -- immediate goroutines run: notifications that are due now
@@ -246,6 +248,7 @@ def step (h : H) : Ev → H × List Obs
     match (h.get k).conn with
     | some c => (h, [.query c.id, .detail (mapState c.st) false])
     | none => (h, [.detail (h.detail k).1 (h.detail k).2])
+  | .lookup s => (h.touch (normalize s), [.service (normalize s) ((h.touch (normalize s)).get (normalize s)).trusted])
   | .setAuto b => ({ h with auto := b }, [.mdnsSetAuto b])
   | .shutdown =>
     let h := { h with shut := true }
